@@ -343,6 +343,11 @@ def subtree_box(prog: Program) -> RuleResult:
         if isinstance(expr, ast.Name):
             if expr.id in env:
                 return env[expr.id]
+            # a local bound once, at the top of the function, to a drawing parameter (`pad = params.level_spacing`)
+            binds = [st for st in fn.body if isinstance(st, ast.Assign) and len(st.targets) == 1 and dotted(st.targets[0]) == expr.id]
+            stores = [x for x in ast.walk(fn) if isinstance(x, ast.Name) and x.id == expr.id and isinstance(x.ctx, ast.Store)]
+            if len(binds) == 1 and len(stores) == 1 and isinstance(binds[0].value, ast.Attribute) and dotted(binds[0].value.value) in param_names:
+                return Poly.atom(canon(ast.unparse(binds[0].value)))
             return Poly.atom(expr.id)
         if isinstance(expr, ast.UnaryOp) and isinstance(expr.op, ast.USub):
             v = ev(expr.operand, env)
